@@ -516,26 +516,51 @@ class _World:
         from treadmill.dirwatch import dirwatch_base
         world = self
 
-        class _QueueWatcher(dirwatch_base.DirWatcher):
-            __slots__ = ()
+        from treadmill.dirwatch import linux_dirwatch
 
-            def _add_dir(self, watch_dir):
+        class _InoEvent(object):
+            """One inotify event as `treadmill.syscall.inotify` reports it."""
+            def __init__(self, kind, path):
+                self.src_path = path
+                self.wd = 1
+                self.mask = 0
+                # eventmgr renames a temp file over the entry: IN_MOVED_TO; unlink: IN_DELETE
+                self.is_moved_to = kind == 'created'
+                self.is_create = False
+                self.is_modify = kind == 'modified'
+                self.is_attrib = False
+                self.is_delete = kind == 'deleted'
+                self.is_moved_from = False
+                self.is_delete_self = False
+
+        class _FakeInotify(object):
+            @staticmethod
+            def add_watch(_path, event_mask=0):
                 return 1
 
-            def _remove_dir(self, watch_id):
-                pass
+            @staticmethod
+            def remove_watch(_wd):
+                return None
 
-            def _wait_for_events(self, timeout):
-                return bool(world.queue)
-
-            def _read_events(self):
-                evs = [({'created': dirwatch_base.DirWatcherEvent.CREATED,
-                         'modified': dirwatch_base.DirWatcherEvent.MODIFIED,
-                         'deleted': dirwatch_base.DirWatcherEvent.DELETED}[k], os.path.join(world.env.cache_dir, n))
-                       for k, n in world.queue]
+            @staticmethod
+            def read_events():
+                evs = [_InoEvent(k, os.path.join(world.env.cache_dir, n)) for k, n in world.queue]
                 world.expected.extend(world.queue)
                 world.queue = []
                 return evs
+
+        class _QueueWatcher(linux_dirwatch.LinuxDirWatcher):
+            """The real LinuxDirWatcher (its `_read_events` translation of inotify events and the base class'
+            `process_events` batching) over a fake inotify descriptor fed from the harness' queue."""
+            __slots__ = ()
+
+            def __init__(self, watch_dir):           # pylint: disable=super-init-not-called
+                self.inotify = _FakeInotify()
+                self.poll = None
+                dirwatch_base.DirWatcher.__init__(self, watch_dir)
+
+            def _wait_for_events(self, timeout):
+                return bool(world.queue)
         self.more_pending = dirwatch_base.DirWatcherEvent.MORE_PENDING
         self.expected = []          # events handed to the watcher, in inotify (FIFO) order, not yet delivered
         self.watcher = _QueueWatcher(self.env.cache_dir)
